@@ -37,12 +37,14 @@ pub enum Hk {
     Join,
     /// a parked `Sender::send` future: keeps the mailbox open (it owns a clone of the channel sender) but is no handle
     Fut,
+    /// an `OwningAddr::consume()` future that has not been polled yet: it owns the OwningAddr, nothing else happened
+    OwnFut,
     None,
 }
 
 impl Hk {
     pub fn strong(self) -> bool {
-        matches!(self, Hk::Addr | Hk::Owning | Hk::Sender | Hk::Caller | Hk::Fut)
+        matches!(self, Hk::Addr | Hk::Owning | Hk::Sender | Hk::Caller | Hk::Fut | Hk::OwnFut)
     }
 }
 
@@ -81,6 +83,7 @@ pub enum OpK {
     JoinPark,
     AwaitParked,
     Rendezvous,
+    ConsumePark,
     QueryStopped,
     QueryRunning,
     Yield,
